@@ -107,11 +107,28 @@ def cycle_obs(fn, *args):
         e, seen = exc, set()
         while e is not None and id(e) not in seen:
             seen.add(id(e))
-            text = (type(e).__name__ + ' ' + str(e)[:20000]).lower()
+            text = message_of(e)
+            if text is None:
+                # reporting includes putting the report into words
+                return 'timeout', None
+            text = (type(e).__name__ + ' ' + text[:20000]).lower()
             if 'cycle' in text or 'circular' in text:
                 return 'cycle-report', exc
             e = e.__cause__ or e.__context__
         return lib.exc_obs(exc), exc
+
+
+def message_of(exc):
+    """str(exc), or None when rendering it does not finish promptly (an
+    exception class may build its message when asked for it)."""
+    try:
+        with lib.time_limit(PROMPT_S):
+            return str(exc)
+    except lib.CaseTimeout:
+        _SLOW[0] += 1
+        return None
+    except Exception:  # noqa: BLE001
+        return ''
 
 
 def analyse(adj, entry):
@@ -374,7 +391,7 @@ def run_ladder(ending, dmax, ctx):
             breaker()
             continue
         ctx.ok(key, got)
-        mlen = len(str(exc)) if exc is not None else 0
+        mlen = len(message_of(exc) or '') if exc is not None else 0
         bound = 400 * d * d
         ctx.check(key + '#msglen', 'msglen:within-quadratic'
                   if mlen <= bound else 'msglen:exceeds-quadratic',
@@ -533,7 +550,7 @@ def run_chain(ending, dmax, ctx, link='plus'):
                         {'kind': 'chain', 'ending': ending, 'd': d,
                          'back': back, 'link': link})
             lib.clear_caches()
-            mlen = len(str(exc)) if exc is not None else 0
+            mlen = len(message_of(exc) or '') if exc is not None else 0
             if d == 5 and back in (None, 1):
                 base_len = max(mlen, 200)
             ctx.count('transitions')
@@ -630,8 +647,57 @@ def _run_deep(ending, ctx):
                   'outcome=%s' % got)
 
 
+# -- defined names of several areas ----------------------------------------------
+# A formula that sums a name of two areas is acyclic wherever it stands outside
+# those areas - also in the rows of one area and the columns of the other.
+AREAS = (('A1:A3', 'C5:C7'), ('B2:C3', 'E6:F7'), ('D1:F1', 'A4:A6'))
+
+
+def _cells_of(area):
+    import re
+    m = re.match(r'([A-Z])(\d+):([A-Z])(\d+)$', area)
+    c1, r1, c2, r2 = m.group(1), int(m.group(2)), m.group(3), int(m.group(4))
+    return ['%s%d' % (chr(c), r) for r in range(r1, r2 + 1)
+            for c in range(ord(c1), ord(c2) + 1)]
+
+
+def run_areas(ctx):
+    import os
+    import tempfile
+    import warnings
+    from ..gen import rawxlsx
+    for ai, areas in enumerate(AREAS):
+        members = [c for a in areas for c in _cells_of(a)]
+        cells = {c: {'form': 'n', 'v': k + 1} for k, c in enumerate(members)}
+        total = sum(range(1, len(members) + 1))
+        hosts = [c for c in _cells_of('A1:G8') if c not in members]
+        for h in hosts:
+            cells[h] = {'form': 'f', 'f': 'SUM(inputs)'}
+        target = ','.join('Sheet1!$%s$%s:$%s$%s' % (
+            a[0], a[1:a.index(':')], a[a.index(':') + 1],
+            a[a.index(':') + 2:]) for a in areas)
+        with tempfile.TemporaryDirectory(prefix='xlmc_c06_') as tmp:
+            path = os.path.join(tmp, 'areas.xlsx')
+            with open(path, 'wb') as fp:
+                fp.write(rawxlsx.build([('Sheet1', cells)],
+                                       {'inputs': target}))
+            with warnings.catch_warnings():
+                warnings.simplefilter('ignore')
+                model = lib.ModelCompiler().read_and_parse_archive(path)
+        ev = lib.Evaluator(model)
+        for h in hosts:
+            got, _ = cycle_obs(ev.evaluate, 'Sheet1!' + h)
+            ctx.check('C06/areas/%d/%s' % (ai, h), got, lib.norm(total),
+                      ['acyclic', 'name:two-areas'],
+                      {'kind': 'areas'}, True,
+                      note='inputs = %s; %s holds =SUM(inputs)' % (target, h))
+            ctx.count('transitions')
+        ctx.count('states')
+        lib.clear_caches()
+
+
 def plan(tier):
-    shards = []
+    shards = [{'kind': 'areas'}]
     for ending in ('value', 'unknown-function', 'back-edge'):
         shards.append({'kind': 'deep', 'ending': ending, 'weight': 40})
     for n, base in ((1, 3), (2, 3), (3, 3)):
@@ -720,6 +786,10 @@ def _run_shard(shard, ctx):
                 for i in range(shard['n'])}})
     elif shard['kind'] == 'deep':
         run_deep(shard['ending'], ctx)
+    elif shard['kind'] == 'areas':
+        run_areas(ctx)
+        ctx.sample({'kind': 'areas', 'name': 'inputs = A1:A3,C5:C7',
+                    'formula': '=SUM(inputs) in every other cell of A1:G8'})
     elif shard['kind'] == 'mixed':
         first, rest = mixed_options()
         for c2 in range(len(rest)):
@@ -779,6 +849,8 @@ def _replay(inputs, ctx):
         run_shard(inputs['shard'], ctx)
     elif k == 'deep':
         run_deep(inputs['ending'], ctx)
+    elif k == 'areas':
+        run_areas(ctx)
     elif k == 'direct':
         run_graph('direct', inputs['n'], inputs['base'], inputs['code'], ctx)
     elif k == 'mixed':
